@@ -29,7 +29,7 @@ OPS = [("remove_useless_symbols", "removeUseless"), ("remove_epsilon", "removeEp
 
 def generate(rng, tier):
     while True:
-        spec = G.gen_cfg(rng)
+        spec = G.gen_cfg(rng, max_vars=5, max_prods=11) if tier == "thorough" and rng.random() < 0.25 else G.gen_cfg(rng)
         if rng.random() < 0.3:
             # productions longer than two with shared suffixes
             tail = [["v", spec["prods"][0][0]], ["t", "a"], ["v", spec["prods"][0][0]]]
